@@ -1653,6 +1653,20 @@ class Interp:
             if m == "strip" and not args:
                 if recv.kind == "var":
                     return recv  # generic labels are already normalised (precondition of every property)
+                if recv.kind == "cat":
+                    parts = list(recv.parts)
+                    while parts and isinstance(parts[0], str):
+                        parts[0] = parts[0].lstrip()
+                        if parts[0]:
+                            break
+                        parts.pop(0)
+                    while parts and isinstance(parts[-1], str):
+                        parts[-1] = parts[-1].rstrip()
+                        if parts[-1]:
+                            break
+                        parts.pop()
+                    if all(isinstance(x, str) or (isinstance(x, Str) and x.kind == "var") for x in parts[:1] + parts[-1:]):
+                        return mkcat(parts)
                 return Str("strip", (recv,))
             if m == "join":
                 return mkjoin(recv, self.iterate(args[0]))
